@@ -115,3 +115,34 @@ package common
 //@   props C07
 //@   pure
 //@   ensures minimal: length >= 0 && length < 4294967296 ==> r == cbor.minHdrLen(length)
+
+// C29: native script evaluation equals the ledger's timelock semantics, as a recursive specification
+// over the script tree: pubkey = a 28-byte hash that is among the witness key hashes; all / any /
+// at-least-N-of; invalid-before s = the validity start is at or after s; invalid-hereafter s = the
+// upper bound is at or before s; (Dijkstra) require-guard = the credential is among the guards.
+//@ spec rec func nsCount(scripts []NativeScript, ctx nativeScriptEvalContext, k int) uint = ite(k <= 0, uint(0), nsCount(scripts, ctx, k-1) + ite(nsEval(&scripts[k-1], ctx), uint(1), uint(0)))
+//@ spec rec func nsEval(n *NativeScript, ctx nativeScriptEvalContext) bool =
+//@     ite(dyn(n.item) == type(*NativeScriptPubkey),
+//@         len(unbox(n.item, type(*NativeScriptPubkey)).Hash) == 28 && ctx.keyHashes[bytesbv(unbox(n.item, type(*NativeScriptPubkey)).Hash, 28)],
+//@     ite(dyn(n.item) == type(*NativeScriptAll),
+//@         forall i int :: 0 <= i && i < len(unbox(n.item, type(*NativeScriptAll)).Scripts) ==> nsEval(&unbox(n.item, type(*NativeScriptAll)).Scripts[i], ctx),
+//@     ite(dyn(n.item) == type(*NativeScriptAny),
+//@         exists i int :: 0 <= i && i < len(unbox(n.item, type(*NativeScriptAny)).Scripts) && nsEval(&unbox(n.item, type(*NativeScriptAny)).Scripts[i], ctx),
+//@     ite(dyn(n.item) == type(*NativeScriptNofK),
+//@         nsCount(unbox(n.item, type(*NativeScriptNofK)).Scripts, ctx, len(unbox(n.item, type(*NativeScriptNofK)).Scripts)) >= unbox(n.item, type(*NativeScriptNofK)).N,
+//@     ite(dyn(n.item) == type(*NativeScriptInvalidBefore),
+//@         ctx.validityStart >= unbox(n.item, type(*NativeScriptInvalidBefore)).Slot,
+//@     ite(dyn(n.item) == type(*NativeScriptInvalidHereafter),
+//@         ctx.validityEnd <= unbox(n.item, type(*NativeScriptInvalidHereafter)).Slot,
+//@     ite(dyn(n.item) == type(*NativeScriptRequireGuard),
+//@         ctx.guardCredentials != nil && mapval(ctx.guardCredentials, unbox(n.item, type(*NativeScriptRequireGuard)).Credential.CredType, unbox(n.item, type(*NativeScriptRequireGuard)).Credential.Credential),
+//@         false)))))))
+
+//@ func (n *NativeScript) evaluate(ctx) (r)
+//@   props C29
+//@   pure
+//@   attr note receiver assumed non-nil
+//@   ensures def: r == nsEval(n, ctx)
+//@   loop 0 invariant rangeindex < len(s.Scripts) && forall j int :: 0 <= j && j <= rangeindex ==> nsEval(&s.Scripts[j], ctx)
+//@   loop 1 invariant rangeindex < len(s.Scripts) && forall j int :: 0 <= j && j <= rangeindex ==> !nsEval(&s.Scripts[j], ctx)
+//@   loop 2 invariant rangeindex < len(s.Scripts) && count <= uint(rangeindex + 1) && count == nsCount(s.Scripts, ctx, rangeindex + 1)
